@@ -2990,7 +2990,7 @@ def check_C12(tier, seed):
                 "must be pairwise disjoint and distinct (they could all be declared in one module) - the "
                 "comparison with Names.tla's particular scheme is a drift note only; the scenarios "
                 "the property lists (several table-using lexers in one module, contexts of any shape, "
-                "repeated set members, large built-ins with many rule sets) and a sample of the family "
+                "repeated set members - also as one-character ranges -, large built-ins with many rule sets) and a sample of the family "
                 "are compiled by rustc and smoke-run" % (2 if tier == "quick" else 3),
         "samples": [{"definition": progs[0].body()[:600]}],
         "tlc_cmd": bt.cmd, "exhaustive": False,
